@@ -10,7 +10,7 @@ export GOFLAGS=-mod=mod GOPROXY=off GOSUMDB=off GOTOOLCHAIN=local
 out=$VERIF/seeded/$id; mkdir -p "$out"
 cp -r "$wt"/SEED/* "$out"/ 2>/dev/null
 [ -f "$out/patch.diff" ] || { echo "no patch.diff"; exit 2; }
-[ -z "$(git -C /repo status --porcelain)" ] || { echo "/repo not clean"; exit 2; }
+[ -z "$(git -C "${REPO:-/repo}" status --porcelain)" ] || { echo "${REPO:-/repo} not clean"; exit 2; }
 C=/tmp/confirm-$id; git -C /repo worktree remove --force "$C" 2>/dev/null; git -C /repo worktree add -q --detach "$C" HEAD || exit 2
 trap 'git -C /repo worktree remove --force "$C" 2>/dev/null; git -C /repo checkout -q -- . 2>/dev/null' EXIT
 log=$out/confirm.log; : > "$log"
@@ -26,7 +26,7 @@ echo "== demo with the change: $*" >> "$log"
 echo "== demo without the change" >> "$log"
 ( cd "$C" && "$@" ) >> "$log" 2>&1; without=$?
 echo "confirm: suite_with_change_exit=$suite demo_with_change_exit=$with demo_without_change_exit=$without" | tee -a "$log"
-git -C /repo apply "$out/patch.diff" || exit 2
+git -C "${REPO:-/repo}" apply "$out/patch.diff" || exit 2
 "$VERIF/check" "$prop" > "$out/check_quick.log" 2>&1; code=$?
-git -C /repo checkout -q -- .
+git -C "${REPO:-/repo}" checkout -q -- .
 echo "check $prop quick exit=$code"; grep '^  key:\|^VIOLATION\|TROUBLE' "$out/check_quick.log" | head -6
